@@ -259,7 +259,13 @@ func c04Oracle1(in c04In) probe.Outcome {
 		return probe.Fail("%v", e0)
 	}
 	for _, poison := range c04Poisons {
-		v1, e1 := decodeEntry(in, probe.Spare(in.B, poison))
+		roomy := probe.Spare(in.B, poison)
+		v1, e1 := decodeEntry(in, roomy)
+		for i, o := range roomy[len(roomy):cap(roomy)] {
+			if o != poison {
+				return probe.Fail("%s: octet %d BEHIND the %d-octet slice was written to (%#02x -> %#02x): the decoder writes past the length of its input", in.Entry, i, len(in.B), poison, o)
+			}
+		}
 		if probe.IsPanic(e1) {
 			return probe.Fail("%s panics on %d octets with spare capacity (poison %#x): %v", in.Entry, len(in.B), poison, e1)
 		}
